@@ -120,7 +120,8 @@ def r3_carry(ctx):
             ctx.ob("R3", "read_with[%s]:feeds-parser" % kind, fed, "each refill is fed to the same parser", config=cfg)
         bodies = [("sync", b) for b in F.bodies_with("buffered_reader", "XmlSource", end="read_bang_element")] + [("async", b) for b in F.bodies_matching(r"TokioAdapter::read_bang_element::\{closure#0\}$")]
         for kind, b in bodies:
-            bloc = [l for l, n in b.names.items() if n == "bang_type"]
+            # the user variable that holds the construct kind, identified by its type (not by its name)
+            bloc = [l for l in b.names if isinstance(b.locals[l], str) and b.locals[l].split("<")[0].endswith("reader::BangType")]
             w = sym.Walker(b)
             inloop = set()
             for h, ls in w.loop_written.items():
